@@ -20,4 +20,5 @@ INVARIANT RenameLands
 INVARIANT UnknownNamesAreReportedAndIgnored
 INVARIANT OthersUntouched
 INVARIANT CopiesStartEqual
+INVARIANT AdHocStaysWithTheCopy
 CHECK_DEADLOCK FALSE
